@@ -987,4 +987,11 @@ example : TWF true (.branch [0x0a, 0xbc] 1 (some (.hashed (List.replicate 32 7))
   simp [TWF, TValueOK, TChildOK, HashOK, List.replicate]
 
 
+/-- The model has one flag for the reads inside pkg/scale.  This is enough: how the bytes of the
+    compact length are read (zero-filling `Read` or `io.ReadFull`) cannot be observed through
+    `decodeBytes`, only how the data bytes are read. -/
+theorem C07_scale_int_mode_irrelevant (si si' sd : Bool) (r : Bytes) :
+    scaleBytes2 si sd r = scaleBytes2 si' sd r ∧ scaleBytes2 sd sd r = scaleBytes sd r :=
+  ⟨scaleBytes2_int_irrelevant si si' sd r, rfl⟩
+
 end Gossamer.C07
